@@ -92,6 +92,7 @@ func planBulk(c *Ctx, run int64, prop string, malformed bool) *Plan {
 	for s := 0; s < nstreams; s++ {
 		p.Knobs[fmt.Sprintf("chunk%d", s)] = Pick(r, []int64{1, 7, 64, 512, 4096, 0})
 		p.Knobs[fmt.Sprintf("http%d", s)] = int64(r.IntN(2))
+		p.Knobs[fmt.Sprintf("indent%d", s)] = int64(r.IntN(2))
 		n := Pick(r, []int{1, 2, 3, 4, 6, 8, 12, 20, 40})
 		if c.Tier != "thorough" && n > 12 {
 			n = 12
@@ -527,7 +528,8 @@ func execBulk(x *X) {
 			}
 		}}}
 	}
-	// start the streams
+	// start the streams; HTTP-style streams share one server instance, as concurrent requests to a real server do
+	httpServer := HTTPHandler(PrivKey(0))
 	var wg sync.WaitGroup
 	for _, st := range streams {
 		st := st
@@ -538,10 +540,14 @@ func execBulk(x *X) {
 			st.httpOut.Gate = func(w *SimWriter, p []byte) { sch.Yield(outName, "consumer", "write", 0) }
 			go func() {
 				defer wg.Done()
-				req := httptest.NewRequest(http.MethodPost, "/bulk", nil)
+				target := "/bulk"
+				if x.P.Knob(fmt.Sprintf("indent%d", st.idx), 0) == 1 {
+					target = "/bulk?indent=true"
+				}
+				req := httptest.NewRequest(http.MethodPost, target, nil)
 				req.Body = simBody{st.rd}
 				gw := &gateWriter{hdr: http.Header{}, w: st.httpOut}
-				HTTPHandler(PrivKey(0)).ServeHTTP(gw, req)
+				httpServer.ServeHTTP(gw, req)
 				st.mu.Lock()
 				st.closed = true
 				st.mu.Unlock()
